@@ -23,6 +23,7 @@ mod c20;
 mod ctx;
 mod drv;
 mod gen;
+mod tune;
 mod xlate;
 
 use ctx::{Ctx, Tier};
